@@ -66,3 +66,24 @@ func vKind(v *variable.Value) int {
 
 // vSameFloat: bitwise equality up to NaN payload.
 func vSameFloat(x, y float64) bool { return vFloatSame(x, y) }
+
+// vCopyValue: a deep copy of a script value.
+func vCopyValue(v *variable.Value) variable.Value {
+	var w variable.Value
+	if v == nil {
+		return w
+	}
+	if v.Number != nil {
+		x := *v.Number
+		w.Number = &x
+	}
+	if v.Boolean != nil {
+		x := *v.Boolean
+		w.Boolean = &x
+	}
+	if v.String != nil {
+		x := *v.String
+		w.String = &x
+	}
+	return w
+}
